@@ -137,6 +137,8 @@ fn valid_frame(addr: u32, base: (f64, f64)) -> BoxedStrategy<Frame> {
         3 => (gen::id13(), gen::fill128()).prop_map(move |(id, fill)| bits::df5(addr, id, fill)),
         2 => (0u32..8, 0u32..128).prop_map(move |(ca, ic)| bits::df11(addr, ca, ic)),
         3 => (1u32..=4, 0u32..8, 0u32..8, gen::chars8_valid()).prop_map(move |(tc, cat, ca, ch)| bits::es(17, ca, addr, bits::me_ident(tc, cat, ch))),
+        // the same callsign again under another type code / category
+        2 => (1u32..=4, 0u32..8, 0u32..8, gen::chars8_pool()).prop_map(move |(tc, cat, ca, ch)| bits::es(17, ca, addr, bits::me_ident(tc, cat, ch))),
         6 => (9u32..=18, 0u32..4, gen::ac12_valid(), any::<bool>(), -0.02f64..0.02, -0.02f64..0.02, 0u32..8).prop_map(move |(tc, ss, ac, odd, dx, dy, ca)| bits::es(17, ca, addr, airpos_me(tc, ss, ac, odd, base.0 + dx, base.1 + dy))),
         4 => (gen::vel_valid(), 0u32..8).prop_map(move |(v, ca)| bits::es(17, ca, addr, bits::me_velocity(&v))),
         1 => (prop_oneof![Just(28u32), Just(29u32), Just(31u32)], gen::fill64(), 0u32..8).prop_map(move |(tc, fill, ca)| bits::es(17, ca, addr, bits::me_raw(tc, fill))),
